@@ -306,6 +306,69 @@ func (h *c02Fetch) run(kind int, b []byte, c c02Case) string {
 		if err == nil && h.rt.gets > 1 {
 			rec.HarnessError("reg: %d GETs for one ManifestGet (%s)", h.rt.gets, c.combo())
 		}
+	case "regc":
+		// the same fetch through a client with the manifest cache switched on, followed by fetches
+		// (get and head) by every digest that took part: whatever the first answer left in the
+		// cache, a manifest handed out for a digest has to be the bytes that digest names
+		rc := regclient.New(regclient.WithConfigHost(config.Host{Name: "reg.example", Hostname: "reg.example", TLS: config.TLSDisabled}),
+			regclient.WithRegOpts(reg.WithHTTPClient(&http.Client{Transport: h.rt}), reg.WithDelay(time.Millisecond, time.Millisecond), reg.WithCache(time.Hour, 50)))
+		r, _ := ref.New("reg.example/repo:tag")
+		if dRef != "" {
+			r.Digest = dRef
+		}
+		hd := http.Header{}
+		if c.CT != 0 {
+			hd.Set("Content-Type", mtOf(c.CT))
+		}
+		if c.Hdr != "-" {
+			hd.Set("Docker-Content-Digest", dHdr)
+		}
+		h.rt.body, h.rt.hdr, h.rt.gets = served, hd, 0
+		var opts []regclient.ManifestOpts
+		if c.Desc != "-" {
+			opts = append(opts, regclient.WithManifestDesc(descriptor.Descriptor{MediaType: c02KindMT[kind], Digest: digest.Digest(dDesc), Size: int64(len(b))}))
+		}
+		m, err = rc.ManifestGet(ctx, r, opts...)
+		consulted = firstDigest(dDesc, dRef, validOrNone(dHdr))
+		out := h.judge(kind, b, c, m, err, consulted)
+		seen := map[string]bool{}
+		for _, l := range []string{c.Hdr, c.Ref, c.Desc, "W256", "R256", "R512"} {
+			d2 := validOrNone(digestFor(l, kind, b))
+			if d2 == "" || seen[d2] {
+				continue
+			}
+			seen[d2] = true
+			r2, _ := ref.New("reg.example/repo:tag")
+			r2.Tag, r2.Digest = "", d2
+			for _, how := range []string{"get", "head"} {
+				var m2 manifest.Manifest
+				var err2 error
+				if how == "get" {
+					m2, err2 = rc.ManifestGet(ctx, r2)
+				} else {
+					m2, err2 = rc.ManifestHead(ctx, r2)
+				}
+				rec.Count("A.regc.followups", 1)
+				if err2 != nil || m2 == nil {
+					continue
+				}
+				raw2, e := m2.RawBody()
+				if e != nil || len(raw2) == 0 {
+					continue // a head answer without a body claims nothing about bytes
+				}
+				rec.Count("A.regc.followups_with_body", 1)
+				ok := digestNames(d2, raw2)
+				for _, p := range jwsPayloads(raw2) {
+					ok = ok || digestNames(d2, p)
+				}
+				if !ok {
+					h.curType = mtShort(m2.GetDescriptor().MediaType)
+					h.viol("wrong-digest-accepted", c, "after the first fetch, %s by digest %s (label %s) through the same client returned bytes whose digest is %s", how, d2, l, m2.GetDescriptor().Digest)
+					out = "violation"
+				}
+			}
+		}
+		return out
 	case "ocidir":
 		r, _ := ref.New("ocidir://" + h.ociDir + ":tag")
 		if dRef != "" {
@@ -689,6 +752,19 @@ func c02RegCombos(full bool, labels []string, descFull bool) []c02Case {
 	return out
 }
 
+// c02RegCacheCombos: entry "regc" (cached client with follow-up fetches), core bodies only.
+func c02RegCacheCombos() []c02Case {
+	var out []c02Case
+	for _, d := range []string{"-", "R256"} {
+		for _, r := range []string{"-", "R256", "W256", "R512"} {
+			for _, hd := range []string{"-", "R256", "W256", "R512", "ALT256"} {
+				out = append(out, c02Case{Entry: "regc", Desc: d, Ref: r, Hdr: hd, CT: 1})
+			}
+		}
+	}
+	return out
+}
+
 func c02OCIDirCombos(full bool, labels []string) []c02Case {
 	var out []c02Case
 	if full {
@@ -737,7 +813,7 @@ func TestVerifC02Fetch(t *testing.T) {
 		maxPerm = 6
 		labels = c02DigLabelsThorough
 	}
-	rec.Rule("part A: case = (entry point ∈ {manifest.New, RegClient.ManifestGet over reg, RegClient.ManifestGet over ocidir}) × manifest body × source combination. " +
+	rec.Rule("part A: case = (entry point ∈ {manifest.New, RegClient.ManifestGet over reg, RegClient.ManifestGet over ocidir, RegClient.ManifestGet over reg through a client with the manifest cache on followed by get and head by every digest that took part (core bodies)}) × manifest body × source combination. " +
 		"Bodies: 7 generated kinds (OCI image/index/artifact, Docker image/list, schema1, synthetic signed schema1) × [19 content variants (annotations present/{}/null, subject, embedded data, artifactType, mediaType declared/absent/contradicting/wrong-case key, unknown member at top/descriptor/platform level, float size, empty list) × 7 whitespace styles × escaped/raw strings × nested member order] ∪ [every permutation of the top-level keys (≤5 permuted keys quick, ≤6 thorough) × 2 styles], plus the real signed fixture in 5 envelope variants and 9 degenerate bodies. " +
 		"Sources: digest label ∈ {none, right sha256, wrong sha256, right sha512, wrong sha512, sha256 of a different encoding of the same value (signed: of the whole envelope), syntactically invalid; thorough adds unknown algorithm, upper-case hex, right sha384} for each of descriptor / reference / Docker-Content-Digest (new, reg) or index entry / reference (ocidir), × media-type source (descriptor or Content-Type: none/agreeing/contradicting/with parameter) × descriptor size right/wrong/zero × descriptor with embedded data. " +
 		"quick: full source matrix × the core bodies (content variants in 2 encodings, fixture, degenerate) and single-source matrix × all other bodies; thorough: full 10-label matrix × core bodies, full 7-label matrix × all other bodies (counts in A.combos_per_*_body). " +
@@ -775,12 +851,12 @@ func TestVerifC02Fetch(t *testing.T) {
 	//           single-source matrix of the 3 extra labels
 	var coreSets, restSets [][]c02Case
 	if rec.Thorough() {
-		coreSets = [][]c02Case{c02NewCombos(true, labels), c02RegCombos(true, labels, true), c02OCIDirCombos(true, labels)}
+		coreSets = [][]c02Case{c02NewCombos(true, labels), c02RegCombos(true, labels, true), c02OCIDirCombos(true, labels), c02RegCacheCombos()}
 		extra := append([]string{"-"}, labels[len(c02DigLabels):]...)
 		restSets = [][]c02Case{c02NewCombos(true, c02DigLabels), c02RegCombos(true, c02DigLabels, false), c02OCIDirCombos(true, c02DigLabels),
 			c02NewCombos(false, extra)}
 	} else {
-		coreSets = [][]c02Case{c02NewCombos(true, labels), c02RegCombos(true, labels, true), c02OCIDirCombos(true, labels)}
+		coreSets = [][]c02Case{c02NewCombos(true, labels), c02RegCombos(true, labels, true), c02OCIDirCombos(true, labels), c02RegCacheCombos()}
 		restSets = [][]c02Case{c02NewCombos(false, labels), c02RegCombos(false, labels, true), c02OCIDirCombos(false, labels)}
 	}
 	count := func(sets [][]c02Case) map[string]int {
